@@ -454,7 +454,12 @@ def ref_read_iter(resources, main_url, env=None, defs=None):
                 if "#" in target:
                     raise Reject("include-fragment", lineno, url, target)
                 if target not in resources:
-                    raise Reject("include-missing", lineno, url, target)
+                    # the same file may be named with or without percent-escapes
+                    from urllib.parse import unquote
+                    alt = [u for u in resources if unquote(u) == unquote(target)]
+                    if not alt:
+                        raise Reject("include-missing", lineno, url, target)
+                    target = alt[0]
                 yield from read(target)
         if stack:
             raise Reject("nesting", lineno, url, "unclosed sections")
